@@ -123,6 +123,16 @@ func (p *Pool) RangeEnd(t *rapid.T, label string, allowEmptyPresent bool) []byte
 		// "just past k": the successor k+0x00 (or a longer extension) of a key - a bound is no key, it may exceed the key length
 		// limit when k is as long as a key may be
 		k := p.Key(t, label+".endof")
+		// the pool's longest key, when it is about as long as a key may be, is the interesting one here
+		longest := p.Keys[0]
+		for _, pk := range p.Keys {
+			if len(pk) > len(longest) {
+				longest = pk
+			}
+		}
+		if len(longest) >= p.MaxLen-4 && rapid.Bool().Draw(t, label+".endoflongest") {
+			k = append([]byte(nil), longest...)
+		}
 		return append(k, rapid.SampledFrom([][]byte{{0}, {0}, {0xff}, {0xff, 0xff, 0xff}, {0, 0}}).Draw(t, label+".endext")...)
 	default:
 		return p.Key(t, label+".end")
